@@ -9,11 +9,14 @@
    defaultValue must PARSE as a constant value and coerce to the declared default.                                   *)
 EXTENDS Naturals, Sequences, FiniteSets, TLC, Json, SequencesExt
 D == INSTANCE GqlDiff WITH e <- 0, f <- 0, Pairs <- FALSE
+CONSTANT TwoEdits      \* TRUE: also the schemas reached by a second edit of another element (thorough tier)
 VARIABLES s, incl
 vars == <<s, incl>>
 \* edits of In's fields would leave the In-typed argument default of Query.d uncoerced (generator hygiene, as in C12)
 Skip == {"retype-input", "add-required-input", "add-null-default-input"}
-Init == s \in ({D!Base} \cup {x.new : x \in {y \in D!Edits(D!Base) : y.kind \notin Skip}}) /\ incl \in BOOLEAN
+One == {y \in D!Edits(D!Base) : y.kind \notin Skip}
+Two == UNION {{z.new : z \in {w \in D!Edits(y.new) : w.kind \notin Skip /\ D!Touch(w) \cap D!Touch(y) = {}}} : y \in {v \in One : v.kind \in D!StableKinds}}
+Init == s \in ({D!Base} \cup {x.new : x \in One} \cup (IF TwoEdits THEN Two ELSE {})) /\ incl \in BOOLEAN
 Next == FALSE /\ UNCHANGED vars
 Spec == Init /\ [][Next]_vars
 Has(r, fld) == fld \in DOMAIN r
